@@ -65,10 +65,10 @@ DiagDominant(m) == m \in {"spd", "nsym", "ispd", "insym"}
 \* systems on which the method is documented / known to converge (the "scope" of the convergence clause)
 InScope ==
   LET s == T.solver  p == T.prec  m == T.mkind IN
-  \/ s \in {"PCG", "PCR"} /\ Symmetric(m) /\ (p \in {"none", "jacobi", "ssor"} \/ (p = "ilu" /\ m \in {"spd", "ispd"}))
+  \/ s \in {"PCG", "PCR", "PipePCG", "GroppPCG"} /\ Symmetric(m) /\ (p \in {"none", "jacobi", "ssor"} \/ (p = "ilu" /\ m \in {"spd", "ispd"}))
   \/ s = "Chebyshev" /\ m = "spd" /\ T.delta10 >= 3 /\ p = "none" /\ T.nfilter = 0
   \/ s \in {"FGMRES", "GMRES", "RGCR", "PMR"} /\ DiagDominant(m) /\ p \in {"none", "jacobi", "sor", "ssor", "ilu"}
-  \/ s \in {"BiCGStab", "BiCGStabR", "BiCGStabL", "IDRS"} /\ DiagDominant(m) /\ p \in {"none", "jacobi", "sor", "ssor", "ilu"}
+  \/ s \in {"BiCGStab", "BiCGStabR", "BiCGStabL", "IDRS", "RBiCGStab"} /\ DiagDominant(m) /\ p \in {"none", "jacobi", "sor", "ssor", "ilu"}
   \/ s = "PCGNR" /\ p \in {"none", "jacobi"}
   \/ s = "Richardson" /\ ((DiagDominant(m) /\ p \in {"jacobi", "sor"}) \/ (m \in {"spd", "ispd"} /\ p = "ssor") \/ (m = "near1" /\ p = "none"))
 
